@@ -51,6 +51,18 @@ ORACLES = {
 }
 
 
+F3_TEXT = "'NoneType' object has no attribute 'extend'"
+
+
+def as_recorded_f3(status, error, agree):
+    """F3 (time merge of 5-D inputs with a singleton time axis) is recorded as: AttributeError from `None.extend`, or a result
+    with values at the wrong time point — the latter exactly as the model (which follows the code there) computes it.  Any other
+    failure in that region is not F3 and is reported under a tag of its own."""
+    if status != 'ok':
+        return F3_TEXT in (error or '')
+    return agree is True
+
+
 def merge_round(rep, pid, cases, tier, tagsrc='gen'):
     """run merge cases on the implementation and the model; apply the oracles relevant for pid"""
     sel = ORACLES[pid]
@@ -105,7 +117,11 @@ def merge_round(rep, pid, cases, tier, tagsrc='gen'):
                 else:
                     nm = SM.oracle_minimal(o['result'])
                     if nm:
-                        fails += [('minimal-noncanonical-inputs', f) for f in nm]
+                        # F18 is about keys that do NOT end in global slices (those are re-simplified at the end of
+                        # from_sequence): a key left non-minimal in global slices is a different failure
+                        fails += [('minimal-noncanonical-inputs-in-global-slices' if ' stored as gslices,' in f
+                                   else 'minimal-noncanonical-inputs', f)
+                                  for f in sorted(nm, key=lambda f: ' stored as gslices,' not in f)]
             if 'keyindep' in sel:
                 fails += [('keyindep', f) for f in SM.oracle_key_independent(c, o)]
         if 'inputs' in sel:
@@ -116,6 +132,11 @@ def merge_round(rep, pid, cases, tier, tagsrc='gen'):
                 o2 = SM.run_merge(c)
                 if o2['status'] == 'ok':
                     fails += [('alias', f) for f in SM.alias_probe(o2['inputs'], o2['result'])]
+        if fails and region == 'merge:time:5D-inputs-singleton-time':
+            a_ = answers.get(i)
+            ag_ = None if a_ is None else SM.compare_model(a_, o['status'], o['result'])[0]
+            if not as_recorded_f3(o['status'], o.get('error'), ag_):
+                region = region + ':unlike-recorded'
         for sig, f in fails[:1]:
             def failing(cc, sig=sig):
                 oo = SM.run_merge(cc)
@@ -230,6 +251,21 @@ def roundtrip_round(rep, pid, cases, tier):
                         break
             except Exception as e:
                 fails = ['split/merge raised %r' % e]
+                back = None
+                err_ = repr(e)
+            if fails and region == 'roundtrip:subset:time:5D':
+                # attribute to F3 only what behaves as recorded (see `as_recorded_f3`)
+                ag_ = None
+                try:
+                    ms = [M.ext_to_model(p_) for p_ in pieces]
+                    if back is not None and all(x is not None for x in ms):
+                        a_ = core.Driver().ask([{'op': 'from_sequence', 'exts': ms, 'dim': dim, 'sd': None,
+                                                 'use': SM.normals_use(pieces)}])[0]
+                        ag_ = SM.compare_model(a_, 'ok', back)[0]
+                except Exception:
+                    ag_ = None
+                if not as_recorded_f3('ok' if back is not None else 'raise', None if back is not None else err_, ag_):
+                    region = region + ':unlike-recorded'
             for f in fails[:1]:
                 rep.failure(f, {'tag': region, 'suite': 'roundtrip', 'case': c, 'dim': dim})
 
